@@ -103,6 +103,13 @@ def asts(tier):
         out.append(["if", c, ["bin", "+", A, B], ["bin", "-", A, B]])
         out.append(["bin", "*", ["if", c, A, B], C])
         out.append(["bin", "-", C, ["if", c, A, B]])
+    # IF as the (unparenthesised, in spelling 'bareif') right operand of + and -
+    for op in ("+", "-"):
+        for left in (A, ["bin", "*", A, B], ["bin", "+", A, C], ["num", 2.0]):
+            for cnd in (["bin", ">", A, B], ["bin", "<", A, B], ["bin", "and", ["bin", ">", A, B], ["bin", "<", B, C]]):
+                out.append(["bin", op, left, ["if", cnd, N(), C]])
+                out.append(["bin", op, left, ["if", cnd, ["bin", "+", A, B], ["bin", "*", B, C]]])
+                out.append(["bin", op, left, ["bin", op, B, ["if", cnd, A, C]]])
     out.append(["if", c1, ["if", c2, A, B], C])
     out.append(["if", c1, A, ["if", c2, B, C]])
     out.append(["if", ["bin", "<", A, B], A, ["if", c2, B, C]])
@@ -343,10 +350,53 @@ def check_unsupported(b):
     return viol, len(UNSUPPORTED)
 
 
+def module_doc(b_root, b_sub, ast):
+    """root model and a module 'Sub' that contain the *same equation text* over their own local variables"""
+    eq = xmile.render(ast, "min")
+
+    def block(b, extra):
+        vs = base_vars(b) + [{"kind": "aux", "name": "x", "eqn": eq}] + extra
+        return "".join(xmile.var_xml(v) for v in vs)
+    root = block(b_root, [{"kind": "aux", "name": "tot", "eqn": "x + Sub.x"}])
+    sub = block(b_sub, [])
+    head = xmile.HEADER % {"name": "mod", "start": "0", "stop": "10", "dt": "<dt>1</dt>"}
+    return (head + root + '\t\t\t<module name="Sub"/>\n\t\t</variables>\n\t</model>\n\t<model name="Sub">\n\t\t<variables>\n'
+            + sub + xmile.FOOTER)
+
+
+MODULE_ASTS = [["bin", "+", A, B], ["bin", "-", A, ["bin", "*", B, C]], ["bin", "*", A, ["bin", "+", ["num", 1.0], B]],
+               ["if", ["bin", ">", A, B], A, C], ["bin", "/", ["bin", "-", A, B], C], ["un", "sqrt", ["bin", "+", A, B]],
+               ["bin", "min", A, ["bin", "*", B, C]], ["bin", "**", A, ["num", 2.0]]]
+
+
+def check_modules(b_root, b_sub):
+    viol = []
+    n = 0
+    for ast in MODULE_ASTS:
+        n += 1
+        try:
+            sim = xmile.compile_text(module_doc(b_root, b_sub, ast), "mod")
+            got = {"x": sim.equation(xmile.find_key(sim, "x"), 1), "sub.x": sim.equation(xmile.find_key(sim, "sub.x"), 1),
+                   "tot": sim.equation(xmile.find_key(sim, "tot"), 1)}
+        except Exception:
+            continue   # loud rejection allowed
+        wr, ws = ref_values(b_root, ast).get(1), ref_values(b_sub, ast).get(1)
+        if wr is None or ws is None:
+            continue
+        want = {"x": wr, "sub.x": ws, "tot": wr + ws}
+        bad = [k for k in want if not core.close(got[k], want[k], rel=1e-9, ab=1e-9)]
+        if bad:
+            viol.append(("modules/%s" % skeleton(ast), {"module_ast": ast, "b_root": b_root, "b_sub": b_sub},
+                         "root model and module Sub both define x = %s over their own a, b, c: got %r, want %r" % (xmile.render(ast, "min"), got, want)))
+    return viol, n
+
+
 def _work_misc(arg):
     kind, b = arg
     if kind == "names":
         return check_names(b)
+    if kind == "modules":
+        return check_modules(b, VALS[(VALS.index(b) + 1) % len(VALS)])
     return check_unsupported(b)
 
 
@@ -358,6 +408,7 @@ def run(ctx):
     per = 120
     for b in bs:
         cases = [(i, t, sp) for i, t in enumerate(trees) for sp in sps]
+        cases += [(i, t, "bareif") for i, t in enumerate(trees) if xmile.has_bare_if(t)]
         for k in range(0, len(cases), per):
             jobs.append((b, cases[k:k + per]))
     res = core.pmap(_work, jobs)
@@ -377,9 +428,9 @@ def run(ctx):
                 ctx.violation("C03/value/%s/%s" % (sp, skeleton(trees[i])), {"ast": trees[i], "spelling": sp, "binding": detail["binding"]}, detail)
     for i in range(0, len(trees), max(1, len(trees) // 6)):
         samples.append({"ast": skeleton(trees[i]), "min": eq_text(trees[i], "min", bs[0]), "full": eq_text(trees[i], "full", bs[0])})
-    misc = core.pmap(_work_misc, [("names", bs[0]), ("unsupported", bs[0])])
+    misc = core.pmap(_work_misc, [("names", bs[0]), ("unsupported", bs[0]), ("modules", bs[0])])
     n_names = misc[0][1]
-    n_unsup = misc[1][1]
+    n_unsup = misc[1][1] + misc[2][1]
     for viol, _ in misc:
         for sig, case, detail in viol:
             ctx.violation("C03/" + sig, case, detail)
@@ -413,5 +464,10 @@ def replay(case):
         except Exception:
             return None
         return "evaluated to %r" % (v,)
+    if "module_ast" in case:
+        global MODULE_ASTS
+        MODULE_ASTS = [case["module_ast"]]
+        viol, _ = check_modules(case["b_root"], case["b_sub"])
+        return viol or None
     viol, _ = check_names(case["binding"])
     return [v for v in viol if v[1]["name"] == case["name"] and v[1]["ref"] == case["ref"]] or None
